@@ -73,11 +73,11 @@ IStep == pc = "run" /\ op = "inter" /\ i <= Len(Small)
 IDone == pc = "run" /\ op = "inter" /\ i > Len(Small) /\ pc' = "done" /\ UNCHANGED <<op, a, b, i, j, out, reply>>
 
 (* ---- insert: Vec::insert(k, x) shifts the tail by one (the same definition as in proofs/MergeInduction.tla) ---- *)
-InsertAt(s, k, x) == [m \in 1..(Len(s) + 1) |-> IF m < k THEN s[m] ELSE IF m = k THEN x ELSE s[m - 1]]
+VecInsert(s, k, x) == [m \in 1..(Len(s) + 1) |-> IF m < k THEN s[m] ELSE IF m = k THEN x ELSE s[m - 1]]
 Ins == pc = "run" /\ op = "insert"
        /\ LET r == Search(a, b[1]) IN
             /\ reply' = ~r.found
-            /\ out' = (IF r.found THEN a ELSE InsertAt(a, r.at, b[1]))
+            /\ out' = (IF r.found THEN a ELSE VecInsert(a, r.at, b[1]))
        /\ pc' = "done" /\ UNCHANGED <<op, a, b, i, j>>
 
 Next == ULess \/ UGreater \/ UEqual \/ ULeft \/ URight \/ UDone \/ IStep \/ IDone \/ Ins
